@@ -305,7 +305,8 @@ def _search(mon, case, logits, lens, conds, name):
 
             out = mon.lib(name, run)
         else:
-            search = M.CTCPrefixSearch(W, beta, lm, vm)
+            search = LY.travelled(M.CTCPrefixSearch(W, beta, lm, vm), W, V, case["T"], pickle_ok=False)
+            lm = search.lm
             if lm is None and logits.size(1) > 1 and (W + logits.size(0)) % 2 == 0:
                 # a history of calls on ONE module object: first a search over the first element alone
                 # (other batch size, unrecorded), then the judged call
